@@ -2228,29 +2228,29 @@ class VM:
                         result = result.replace("\x00DOLLAR\x00", "$")
                         return result
 
-                    result_parts = []
-                    last_end = 0
-                    pos = 0
-
-                    while pos <= len(s):
-                        # Create fresh regex VM for each search
-                        vm_regex = regex_internal._create_vm()
-                        match_result = vm_regex.search(s, pos)
+                    # Symbol.replace: collect the matches through
+                    # RegExpBuiltinExec (it honours sticky and lastIndex; a
+                    # global regex starts at 0 and ends with lastIndex 0)
+                    if is_global:
+                        pattern.lastIndex = 0
+                    results = []
+                    while True:
+                        match_result = pattern.builtin_exec(s)
                         if match_result is None:
                             break
-
-                        # Add the part before this match
-                        result_parts.append(s[last_end : match_result.index])
-                        # Add the replacement
-                        result_parts.append(handle_replacement(match_result))
-
-                        # Move past the match
-                        match_len = len(match_result[0]) if match_result[0] else 0
-                        last_end = match_result.index + match_len
-                        pos = last_end if match_len > 0 else match_result.index + 1
-
+                        results.append(match_result)
                         if not is_global:
                             break
+                        if match_result[0] == "":
+                            # step over an empty match
+                            pattern.lastIndex = pattern.lastIndex + 1
+
+                    result_parts = []
+                    last_end = 0
+                    for match_result in results:
+                        result_parts.append(s[last_end : match_result.index])
+                        result_parts.append(handle_replacement(match_result))
+                        last_end = match_result.index + len(match_result[0])
 
                     # Add remainder after last match
                     result_parts.append(s[last_end:])
@@ -2291,98 +2291,59 @@ class VM:
                 parts.append(s[end:])
                 return "".join(parts)
 
-        def match(*args):
+        def regexp_operand(args):
+            """The RegExp that the argument of match/search is or stands for."""
             pattern = args[0] if args else UNDEFINED
-            if pattern is UNDEFINED:
-                pattern = ""  # new RegExp(undefined) is the empty pattern
-
-            from .regex import RegExp as InternalRegExp
-
             if isinstance(pattern, JSRegExp):
-                regex_internal = pattern._internal
-                is_global = "g" in pattern._flags
-            else:
-                # Convert string to regex using microjs.regex
-                # Create a poll_callback if the VM has time limits
-                poll_callback = None
-                if self.time_limit is not None:
-                    poll_callback = (
-                        lambda: time.monotonic() - self.start_time > self.time_limit
-                    )
-                regex_internal = InternalRegExp(to_str(pattern), "", poll_callback)
-                is_global = False
+                return pattern
+            # new RegExp(undefined) is the empty pattern
+            source = "" if pattern is UNDEFINED else to_str(pattern)
+            poll_callback = None
+            if self.time_limit is not None:
+                poll_callback = (
+                    lambda: time.monotonic() - self.start_time > self.time_limit
+                )
+            return JSRegExp(source, "", poll_callback)
 
+        def match(*args):
+            regex = regexp_operand(args)
             try:
-                if is_global:
-                    # Global flag: return all matches without groups
-                    matches = []
-                    pos = 0
-                    while pos <= len(s):
-                        # Create fresh regex VM for each search
-                        vm_regex = regex_internal._create_vm()
-                        result = vm_regex.search(s, pos)
-                        if result is None:
-                            break
-                        matches.append(result[0])
-                        # Advance position
-                        match_len = len(result[0]) if result[0] else 0
-                        pos = (
-                            result.index + match_len
-                            if match_len > 0
-                            else result.index + 1
-                        )
-
-                    if not matches:
-                        return NULL
-                    arr = JSArray()
-                    arr._elements = list(matches)
-                    return arr
-                else:
-                    # Non-global: return first match with groups
-                    vm_regex = regex_internal._create_vm()
-                    result = vm_regex.search(s, 0)
+                if "g" not in regex._flags:
+                    # Symbol.match of a non-global regex is exec
+                    return regex.exec(s)
+                # Global: the text of every match, from the start; lastIndex
+                # is driven through RegExpBuiltinExec and ends at 0
+                regex.lastIndex = 0
+                matches = []
+                while True:
+                    result = regex.builtin_exec(s)
                     if result is None:
-                        return NULL
-                    arr = JSArray()
-                    arr._elements = [result[0]]
-                    # Add captured groups (capture_count includes group 0, so iterate 1 to capture_count-1)
-                    capture_count = regex_internal._capture_count
-                    for i in range(1, capture_count):
-                        group_val = result[i]
-                        if group_val is None:
-                            arr._elements.append(UNDEFINED)
-                        else:
-                            arr._elements.append(group_val)
-                    arr.set("index", result.index)
-                    arr.set("input", s)
-                    return arr
+                        break
+                    matches.append(result[0])
+                    if result[0] == "":
+                        # step over an empty match
+                        regex.lastIndex = regex.lastIndex + 1
+                if not matches:
+                    return NULL
+                arr = JSArray()
+                arr._elements = matches
+                return arr
             except RegexTimeoutError:
                 raise TimeLimitError("Regex execution timeout")
 
         def search(*args):
-            pattern = args[0] if args else UNDEFINED
-            if pattern is UNDEFINED:
-                pattern = ""  # new RegExp(undefined) is the empty pattern
-
-            from .regex import RegExp as InternalRegExp
-
-            if isinstance(pattern, JSRegExp):
-                regex_internal = pattern._internal
-            else:
-                # Convert string to regex using microjs.regex
-                poll_callback = None
-                if self.time_limit is not None:
-                    poll_callback = (
-                        lambda: time.monotonic() - self.start_time > self.time_limit
-                    )
-                regex_internal = InternalRegExp(to_str(pattern), "", poll_callback)
-
+            regex = regexp_operand(args)
+            # Symbol.search: one exec from position 0 that leaves lastIndex
+            # as it was
+            previous = regex.get("lastIndex")
+            regex.lastIndex = 0
             try:
-                vm_regex = regex_internal._create_vm()
-                result = vm_regex.search(s, 0)
+                result = regex.builtin_exec(s)
                 return result.index if result else -1
             except RegexTimeoutError:
                 raise TimeLimitError("Regex execution timeout")
+            finally:
+                regex.set("lastIndex", previous)
 
         def toString(*args):
             return s
